@@ -62,7 +62,9 @@ static unsigned char* sched_nc;
 static uint32_t* sched_mask;
 static long nsched = 0;
 static int diverged = 0;
-static char next_name[32];
+static char next_names[16][32];
+static int nn_head = 0, nn_tail = 0;
+static vs_thread_hook_fn thread_hook;
 static long pct_points[16];
 static long low_prio = -1;
 static int rr_last = -1;
@@ -137,7 +139,13 @@ long vs_steps(void) { return steps; }
 uint64_t vs_now_ns(void) { return now_ns; }
 int vs_is_blocked_on_cv(int t) { return T[t].st == ST_BLK_CV; }
 int vs_is_done(int t) { return T[t].st == ST_DONE; }
-void vs_name_next(const char* name) { snprintf(next_name, sizeof next_name, "%s", name); }
+void
+vs_name_next(const char* name)
+{
+    snprintf(next_names[nn_tail % 16], 32, "%s", name);
+    nn_tail++;
+}
+void vs_set_thread_hook(vs_thread_hook_fn fn) { thread_hook = fn; }
 
 const char*
 vs_status(int t)
@@ -283,6 +291,18 @@ vs_yield(const char* what)
     resched();
 }
 
+// a polling / sleeping thread gives way: under the priority strategy (PCT) it drops to the lowest priority, otherwise a
+// high-priority busy-poll loop would starve every other thread (which no real machine does)
+void
+vs_yield_low(const char* what)
+{
+    if (!active)
+        return;
+    T[cur].prio = low_prio--;
+    T[cur].at = what;
+    resched();
+}
+
 static void
 block(int st, void* obj, const char* at)
 {
@@ -305,9 +325,13 @@ tramp(void* p)
 {
     vt_t* t = (vt_t*)p;
     sem_wait(&t->sem);
+    if (thread_hook)
+        thread_hook((int)(t - T), t->name, 0);
     t->fn(t->arg);
     t->st = ST_DONE;
     t->at = "exit";
+    if (thread_hook)
+        thread_hook((int)(t - T), t->name, 1);
     wake_all(ST_BLK_JOIN, t);
     int alldone = 1;
     for (int i = 1; i < NT; i++)
@@ -483,9 +507,9 @@ uint8_t
 __wrap_thread_create(struct thread* t, void (*proc)(void*), void* args)
 {
     char nm[32];
-    if (next_name[0]) {
-        snprintf(nm, sizeof nm, "%s", next_name);
-        next_name[0] = 0;
+    if (nn_head < nn_tail) {
+        snprintf(nm, sizeof nm, "%s", next_names[nn_head % 16]);
+        nn_head++;
     } else
         snprintf(nm, sizeof nm, "t%d", NT);
     int id = vs_spawn(nm, proc, args);
@@ -509,7 +533,9 @@ __wrap_thread_join(struct thread* t)
     t->is_live_ = 0;
 }
 
-void __wrap_clock_init(struct clock* c) { c->origin = now_ns; }
+// every clock read advances virtual time a little, so that code which busy-waits on the clock (the sink's write
+// delay) makes progress even when no thread sleeps
+void __wrap_clock_init(struct clock* c) { now_ns += 50000; c->origin = now_ns; }
 uint64_t
 __wrap_clock_tic(struct clock* c)
 {
@@ -539,9 +565,10 @@ __wrap_clock_sleep_ms(struct clock* c, float ms)
         return;
     }
     if (wake <= now_ns + 1000000ull) { // less than 1 ms remaining: the real clock_sleep_ms does not sleep either
-        vs_yield("sleep_skipped");
+        vs_yield_low("sleep_skipped");
         return;
     }
+    T[cur].prio = low_prio--;
     T[cur].wake = wake;
     T[cur].st = ST_SLEEP;
     T[cur].at = "sleep";
